@@ -2,18 +2,19 @@
 # tools/harmless_run.sh <harmless dir> [tier] — run the property's check against a behaviour-preserving rewrite without touching
 # /repo (shadow copy through PYTHONPATH); prints QUIET (exit 0, no VIOLATION) or ALARM with the VIOLATION lines and what broke.
 set -u
+ROOT=$(cd "$(dirname "$0")/.." && pwd)
 D=$(realpath ${1%/}); TIER=${2:-quick}; PID=$(python3 -c "import json;print(json.load(open('$D/meta.json'))['property'])")
 T=$(mktemp -d /tmp/harmrun_XXXX); mkdir -p $T/r; cp -r /repo/note_seq $T/r/; (cd $T/r && patch -s -p1 < $D/patch.diff) || { echo "patch failed"; rm -rf $T; exit 2; }
-OUT=$(cd /verif && PYTHONPATH=$T/r timeout 3000 ./check $PID $TIER 2>&1); RC=$?
+OUT=$(cd $ROOT && PYTHONPATH=$T/r timeout 3000 ./check $PID $TIER 2>&1); RC=$?
 rm -rf $T
 BROKE=$(python3 - <<PY
 import json
 try:
-    e=json.load(open('/verif/evidence/$PID.json'))
+    e=json.load(open('$ROOT/evidence/$PID.json'))
     print('; '.join(e['coverage'].get('no_longer_checks',[])[:4])[:600], '| disagreements:', e['coverage'].get('correspondence_disagreements'), '| failures:', e['coverage'].get('property_failures_on_real_code'))
 except Exception as x: print('?', x)
 PY
 )
-(cd /verif && ./check $PID quick >/dev/null 2>&1); CLEAN=$?
+(cd $ROOT && ./check $PID quick >/dev/null 2>&1); CLEAN=$?
 if [ $RC -eq 0 ] && ! echo "$OUT" | grep -q "^VIOLATION"; then echo "QUIET $D ($TIER)"; else echo "ALARM $D ($TIER) rc=$RC: $(echo "$OUT" | grep -E '^VIOLATION|MACHINERY' | head -2 | tr '\n' ' ') :: $BROKE"; fi
 echo "clean-tree rc after: $CLEAN"
